@@ -23,6 +23,35 @@ def traps(tier):
     return [t for be in ('memory','file') for t in cachefam.trap_families(be)]
 
 
+def proxy_requests_complete(tier, seed):
+    """Proxy-level part: every proxied request completes under evictions / cleanup landing inside revalidations, disconnects
+    and store refusals (replay families of spec/Proxy.tla; a step that never settles or an answer that never comes)."""
+    import vlib, proxyfam
+    from props.proxycommon import confirmed
+    from concurrent.futures import ThreadPoolExecutor
+    fl = proxyfam.reval_families() + proxyfam.flight_families()[:2] + proxyfam.refusal_families()
+    n = 30 if tier == "quick" else 250
+    vlib.go_build("proxydrv")
+    with ThreadPoolExecutor(max_workers=6) as ex:
+        results = list(ex.map(lambda t: proxyfam.run_family(t[1], n, seed * 1000 + 600 + t[0]), enumerate(fl)))
+    out = {"violations": [], "notes": [], "coverage": {"proxy_level_families": []}, "traces": 0}
+    for f, r in zip(fl, results):
+        out["traces"] += r["behaviours"]
+        out["coverage"]["proxy_level_families"].append({k: r[k] for k in ("family", "behaviours", "lines", "consumed")})
+        done = set()
+        for p in r["problems"]:
+            key = (p["event"].get("a"), tuple(p["cats"]))
+            if "C14" in p["props"] and key not in done:
+                if confirmed(f, p, "C14"):
+                    done.add(key)
+                    out["violations"].append(vlib.save_replay("C14", "%s-%s-seed%d.json" % (f["name"], vlib.digest(p["replay_input"]), seed),
+                                                              {"kind": "proxydrv", "problem": {k: p[k] for k in ("props", "cats", "line", "event", "context", "kind")},
+                                                               "input": p["replay_input"]}))
+                else:
+                    out["notes"].append("proxy family %s: an unsettled step (line %d) did not reproduce when replayed alone; not counted" % (f["name"], p["line"]))
+    return out
+
+
 def run(tier, seed):
     return run_cache_property(
         "C14", tier, seed, mcs, fams, 60, 600, "model_checking",
@@ -32,8 +61,13 @@ def run(tier, seed):
         "limit changes are replayed on both real backends under a watchdog: a step whose goroutine neither returns, "
         "parks at a harness gate nor is explained by the model's Block action within the watchdog is a hang.",
         ["liveness is decided on the model; on the code it is a watchdog (8 s per step) with goroutine wait-reason "
-         "inspection"])
+         "inspection", "proxy level: revalidation, flight and store-refusal replay families of spec/Proxy.tla (a step that never settles, an answer that never comes)"],
+        extra_runs=[proxy_requests_complete])
 
 
 def replay(path):
+    import json
+    if json.load(open(path)).get("kind") == "proxydrv":
+        from props.proxycommon import replay_file as px_replay
+        return px_replay("C14", path)
     return replay_file("C14", path)
